@@ -874,13 +874,30 @@ func c08StoreCase(steps []c08Step, qa []netip.Addr, qn []string) string {
 
 func genC08Store(rng *rand.Rand) string {
 	na := 1 + rng.IntN(3)
+	// "wide" scripts: one name collects many addresses (or one address many names), with
+	// repeats arriving late, so that size-dependent representations of the per-key sets (small
+	// linear sets promoted to indexed ones at some threshold) are driven across their threshold
+	wide := rng.IntN(4) == 0
+	if wide {
+		na = 4 + rng.IntN(9)
+	}
 	pool := make([]netip.Addr, na)
 	for i := range pool {
 		pool[i] = netip.MustParseAddr(c08AddrPool[rng.IntN(len(c08AddrPool))])
+		if wide && rng.IntN(4) != 0 {
+			pool[i] = netip.AddrFrom4([4]byte{10, 0, 0, byte(i + 1)})
+		}
 	}
 	// a small family of names so that case variants meet
 	base := rng.IntN(len(c08NamePool))
+	wideNames := rng.IntN(2) == 0 // wide in names for one address instead of addresses for one name
 	pickName := func() string {
+		if wide && !wideNames && rng.IntN(6) != 0 {
+			return c08NamePool[(base+rng.IntN(2))%len(c08NamePool)]
+		}
+		if wide && wideNames {
+			return c08NamePool[rng.IntN(len(c08NamePool))]
+		}
 		if rng.IntN(3) == 0 {
 			return c08NamePool[rng.IntN(len(c08NamePool))]
 		}
@@ -888,8 +905,15 @@ func genC08Store(rng *rand.Rand) string {
 	}
 	var steps []c08Step
 	mirror := rng.IntN(3) == 0
-	for k := 1 + rng.IntN(7); k > 0; k-- {
+	nsteps := 1 + rng.IntN(7)
+	if wide {
+		nsteps = 6 + rng.IntN(16)
+	}
+	for k := nsteps; k > 0; k-- {
 		st := c08Step{idx: 0, addr: pool[rng.IntN(na)]}
+		if wide && wideNames && rng.IntN(5) != 0 {
+			st.addr = pool[rng.IntN(2)]
+		}
 		if rng.IntN(4) == 0 {
 			st.idx = 1
 		}
